@@ -587,6 +587,13 @@ fn one_request(_step: usize) -> (String, bool) {
                 verdict("from_range", "a region", want, &desc);
             }
             let want_flags = mmflags.map(|f| if is_unix_kind && !with_file { f & !libc::MAP_SHARED | libc::MAP_PRIVATE | libc::MAP_ANONYMOUS } else { f }).unwrap_or(libc::MAP_NORESERVE | libc::MAP_SHARED);
+            // a region that is mapped in advance is mapped: every page of it, at the address it reports
+            let advance_mapped_ok = xflags & 8 != 0 || size == 0 || (!reg.as_ptr().is_null() && cx().sys.covered(reg.as_ptr() as usize, size));
+            if !advance_mapped_ok {
+                cx().violate("C12", "C12/early-unmap", "a live region mapped in advance is not mapped".into(), format!("{}: the region was built but nothing is mapped at the host address it reports ({:p})", desc, reg.as_ptr()));
+                cx().violate("C15", "C15/attributes", "a built region that is not mapped".into(), format!("{}: the region was built but nothing is mapped at the host address it reports ({:p})", desc, reg.as_ptr()));
+                return (desc, true);
+            }
             if reg.size() != size || reg.prot() != eff_xprot || reg.flags() != want_flags || reg.xen_mmap_flags() != xflags || reg.xen_mmap_data() != 3 || reg.file_offset().map(|f| f.start()) != file.as_ref().map(|_| offset) {
                 cx().violate("C15", "C15/attributes", "attributes of the built region".into(), format!("{}: region reports size {} prot {:#x} flags {:#x} xen flags {:#x} data {}", desc, reg.size(), reg.prot(), reg.flags(), reg.xen_mmap_flags(), reg.xen_mmap_data()));
             }
